@@ -385,6 +385,7 @@ def stage_programs(fam, n):
     return gen.family(fam, n, vlib.seed())
 
 
+DEADLINE = [None]   # thorough tier: no new batch of programs is started after this time (set per property run)
 CHUNK = 40     # programs per TLC run (larger batches are split: the prefix tree of a thorough batch can exceed TLC's time box)
 
 
@@ -404,9 +405,17 @@ def merge_results(fam, parts):
 def cached_pipeline(fam, progs, tier, cap, do_mc, sample=None, pb=None, clock=False):
     chunk = CHUNK if tier == "quick" else CHUNK // 2
     if len(progs) > chunk:
-        parts = [cached_pipeline(fam, progs[i:i + chunk], tier, cap, do_mc, sample=sample, pb=pb, clock=clock)
-                 for i in range(0, len(progs), chunk)]
-        return merge_results(fam, parts)
+        parts = []
+        skipped = 0
+        for i in range(0, len(progs), chunk):
+            if parts and DEADLINE[0] is not None and time.time() > DEADLINE[0]:
+                skipped += len(progs[i:i + chunk])       # time box of the thorough tier reached: said so in the evidence
+                continue
+            parts.append(cached_pipeline(fam, progs[i:i + chunk], tier, cap, do_mc, sample=sample, pb=pb, clock=clock))
+        r = merge_results(fam, parts)
+        if skipped:
+            r["summary"]["programs_skipped_time_box"] = skipped
+        return r
     return cached_pipeline1(fam, progs, tier, cap, do_mc, sample=sample, pb=pb, clock=clock)
 
 
@@ -1102,6 +1111,7 @@ def run_property(pid, tier):
     vlib.build_harness()
     spec = SHUTTLE_PROPS[pid]
     known = vlib.load_known()
+    DEADLINE[0] = None if tier == "quick" else time.time() + float(os.environ.get("VERIF_THOROUGH_BUDGET_S", "2400"))
     cap = 4000 if tier == "quick" else 20000
     totals = {}
     problems = []
